@@ -61,6 +61,31 @@ ODDKEYS = ["1", "yes", "a b", "", "<<", "a:b", "$x", "null", " ", "a\nb", "-"]
 HASHES = ["md5", "sha1", "sha224", "sha256", "sha384", "sha512"]
 
 
+SECRET_LENS = [31, 32, 33, 47, 48, 64, 65, 100, 200, 1000]      # around the 32-byte key and the 16-byte AES block
+LONG_STR_LENS = [33, 64, 65, 100, 255, 256, 1000, 2000]
+LONG_BYTES_LENS = [31, 32, 33, 48, 64, 65, 100, 255, 256, 300]
+
+
+def sized_text(n, multibyte=False, salt=0):
+    """a string whose UTF-8 encoding has exactly n bytes; the character at each position depends on the position (a
+    truncated, repeated or shifted copy differs); XML characters only, no whitespace at the ends"""
+    out, size, i = [], 0, salt
+    wide = ["\u00e9", "\u20ac", "\U0001F600", "\u00df", "\u4e2d"]
+    while size < n:
+        ch = wide[i % len(wide)] if multibyte and i % 3 == 0 else "abcdefghijklmnopqrstuvwxyzABCDEFGHIJKLMNOPQRSTUVWXYZ0123456789"[(i * 7 + i // 62) % 62]
+        b = len(ch.encode("utf-8"))
+        if size + b > n:
+            ch, b = "x", 1
+        out.append(ch)
+        size += b
+        i += 1
+    return "".join(out)
+
+
+def sized_bytes(rng, n):
+    return bytes(rng.randrange(256) for _ in range(n))
+
+
 def r_text(rng, prof):
     if rng.random() < 0.3:
         return rng.choice(SPECIAL)
@@ -190,6 +215,12 @@ def gen_val(rng, nd, prof, normal=False):
             return repr(x)
         return rng.randint(0, 9)
     if k == "str":
+        if rng.random() < 0.15:
+            n = rng.choice([x for x in LONG_STR_LENS if p.get("max_len") is None or x <= p["max_len"]] or [p.get("max_len") or 8])
+            s = sized_text(n, rng.random() < 0.4, rng.randrange(1000))
+            s = s[:p["max_len"]] if p.get("max_len") is not None else s
+            if ok_str(p, norm_str(p, s), req):
+                return norm_str(p, s) if normal else s
         for _ in range(6):
             s = r_text(rng, prof)
             if ok_str(p, norm_str(p, s), req):
@@ -208,6 +239,8 @@ def gen_val(rng, nd, prof, normal=False):
         return "10.1.2.%d" % rng.randint(0, 255)
     if k == "host":
         return rng.choice(["localhost", "a.b-c.example", "10.0.0.1", "MYPC", "srv_01", "x1.y2"])
+    if k == "url" and rng.random() < 0.1:
+        return "http://abc.com/" + sized_text(rng.choice([64, 300, 1000]), False, rng.randrange(100))
     if k == "url":
         return rng.choice(["http://abc.com/x?y=1&z=2", "ftp://h", "mailto:a@b", "https://e.org/<p>?q='1'", "file:///tmp/a b"])
     if k == "loglevel":
@@ -218,6 +251,8 @@ def gen_val(rng, nd, prof, normal=False):
         return rng.choice(["a.txt", "/abs/x", "", "rel/dir/f", "sp ace.cfg"]) if not req else rng.choice(["a.txt", "/abs/x"])
     if k == "bytes":
         b = bytes(rng.randrange(256) for _ in range(rng.randint(0, 6)))
+        if rng.random() < 0.2:
+            return sized_bytes(rng, rng.choice(LONG_BYTES_LENS))
         if normal or rng.random() < 0.8:
             return rng.choice([b, b, b"", b"\x00\xff", b"abc", b"\x00"])
         return r_text(rng, dict(prof, xml=True))
@@ -233,6 +268,9 @@ def gen_val(rng, nd, prof, normal=False):
         r = rng.random()
         if r < 0.1 and not req:
             return ""
+        if r < 0.5:
+            # lengths around the 32-byte key (xor repeats it) and the AES block size, ASCII and multi-byte
+            return sized_text(rng.choice(SECRET_LENS), rng.random() < 0.5, rng.randrange(1000))
         return rng.choice(["s3cret!", "p", "über \U0001F600", "0123456789abcdef", "0123456789abcdef0123456789abcdef", "a\r\nb\x00c",
                            r_text(rng, prof) or "x"])
     if k == "any":
@@ -475,6 +513,44 @@ def matrix_rich():
                    ("tree", (), "sub", {"secret": "from a map", "l2": {"secret": "map2"}})]
             cases.append(rcase(fields, ops[:-1], "matrix-F1", kf={"use": True, "exists": exists}, seed=200 + len(cases)))
             cases.append(rcase(fields, ops, "matrix-F1", kf={"use": True, "exists": exists}, seed=200 + len(cases)))
+    # long values: secrets of every method with UTF-8 lengths around the 32-byte key file and the 16-byte AES block, ASCII and
+    # multi-byte, at the root / nested / deeper / in list items (plain and config type) / in typed lists and dicts of secrets
+    # (a cipher that stops at the key length truncates them); long strings and long binary values for the other fields
+    for mb in (False, True):
+        for n in SECRET_LENS:
+            sx = lambda m="xor": L("secure", {"method": m})   # noqa: E731
+            isec = {"kind": "secure", "p": {"method": "xor"}}
+            fields = [("sx", sx("xor")), ("sa", sx("aes")), ("sb", sx("best")),
+                      ("sl", L("list", {"item": isec})), ("sd", L("dict", {"key": "str", "value": isec})),
+                      ("sla", L("list", {"item": {"kind": "secure", "p": {"method": "aes"}}})),
+                      ("sub", {"t": "sub", "dyn": False, "fields": [("secret", sx("xor")), ("deep", {"t": "ctype", "fields": [("secret", sx("xor")), ("sa", sx("aes"))]})]}),
+                      ("items", {"t": "cfglist", "ctype": False, "required": False, "fields": [("secret", sx("xor")), ("sl", L("list", {"item": isec}))]}),
+                      ("titems", {"t": "cfglist", "ctype": True, "required": False, "fields": [("secret", sx("best"))]})]
+            t = lambda k: sized_text(n, mb, k)   # noqa: E731
+            ops = [("set", (), "sx", t(1), "attr"), ("set", (), "sa", t(2), "attr"), ("set", (), "sb", t(3), "attr"),
+                   ("set", (), "sl", [t(4), "short", t(5)], "attr"), ("set", (), "sd", {"a": t(6), "b1": "p"}, "attr"), ("set", (), "sla", [t(7)], "attr"),
+                   ("set", (("key", "sub"),), "secret", t(8), "dotted"), ("set", (("key", "sub"), ("key", "deep")), "secret", t(9), "attr"),
+                   ("set", (("key", "sub"), ("key", "deep")), "sa", t(10), "attr"),
+                   ("append", (), "items", [("set", (), "secret", t(11), "attr"), ("set", (), "sl", [t(12)], "attr")]),
+                   ("append", (), "titems", [("set", (), "secret", t(13), "attr")])]
+            cases.append(rcase(fields, ops, "matrix-long-secret", kf={"use": True, "exists": n % 2 == 0}, seed=400 + len(cases)))
+    lrng = random.Random(4242)
+    for mb in (False, True):
+        ist = {"kind": "str", "p": {}}
+        fields = [("s", L("str", {})), ("up", L("str", {"case": "upper", "strip": True})), ("b64", L("bytes", {"enc": "base64"})), ("hexb", L("bytes", {"enc": "hex"})),
+                  ("ls", L("list", {"item": ist})), ("ds", L("dict", {"key": "str", "value": {"kind": "bytes", "p": {"enc": "hex"}}})), ("any", L("any")),
+                  ("url", L("url")), ("ch", L("challenge", {"alg": "sha256"})),
+                  ("sub", {"t": "sub", "dyn": False, "fields": [("s", L("str", {})), ("b", L("bytes", {"enc": "base64"}))]}),
+                  ("items", {"t": "cfglist", "ctype": False, "required": False, "fields": [("s", L("str", {})), ("b", L("bytes", {"enc": "hex"}))]})]
+        ops = [("set", (), "s", sized_text(2000, mb, 1), "attr"), ("set", (), "up", sized_text(1000, False, 2), "attr"),
+               ("set", (), "b64", sized_bytes(lrng, 300), "attr"), ("set", (), "hexb", sized_bytes(lrng, 256), "attr"),
+               ("set", (), "ls", [sized_text(k, mb, k) for k in (0, 1, 255, 256, 1000)], "attr"),
+               ("set", (), "ds", {"a": sized_bytes(lrng, 33), "b1": sized_bytes(lrng, 300), "Key": b""}, "attr"),
+               ("set", (), "any", {"a": [sized_text(1000, mb, 3), {"b1": sized_text(65, mb, 4)}]}, "attr"),
+               ("set", (), "url", "http://abc.com/" + sized_text(1000, False, 5), "attr"), ("set", (), "ch", sized_text(200, mb, 6), "attr"),
+               ("set", (("key", "sub"),), "s", sized_text(1000, mb, 7), "attr"), ("set", (("key", "sub"),), "b", sized_bytes(lrng, 255), "dotted"),
+               ("append", (), "items", [("set", (), "s", sized_text(2000, mb, 8), "attr"), ("set", (), "b", sized_bytes(lrng, 100), "attr")])]
+        cases.append(rcase(fields, ops, "matrix-long-values", seed=500 + len(cases)))
     # F41: required secret; the empty string is refused, the secret stays; empty optional secret comes back unset
     fields = [("req", L("secure", {"method": "xor"}, required=True)), ("opt", L("secure", {"method": "aes"})), ("dflt", L("secure", {"method": "xor"}, default="")),
               ("sl", L("list", {"item": {"kind": "secure", "p": {"method": "xor"}}}))]
